@@ -907,6 +907,128 @@ def d13():
 """        ctx.Module.Metadata["types"] = [t.GetType() for t in module.GetTypes()]
 """)])
 
+@fix('D48', "fix: the wasm backend refuses signatures with non-scalar types\n\n_ConvertType turned arrays, vectors, matrices and structures into struct types\n(0x5F ...), which are not WebAssembly 1.0 value types: a function with such a\nparameter produced a module no engine accepts. Function signatures now refuse\nthem like every other construct the backend cannot translate.")
+def d48():
+    patch('nsl/passes/GenerateWasm.py', [(
+"""    for argType in ft.Arguments.values():
+        argTypes.append(_ConvertType(argType))
+
+    if not ft.ReturnType.IsVoid():
+        resultTypes.append(_ConvertType(ft.ReturnType))
+""",
+"""    for argType in ft.Arguments.values():
+        if not argType.IsScalar():
+            raise RuntimeError(
+                f"Unsupported parameter type for WebAssembly: {argType}"
+            )
+        argTypes.append(_ConvertType(argType))
+
+    if not ft.ReturnType.IsVoid():
+        if not ft.ReturnType.IsScalar():
+            raise RuntimeError(
+                f"Unsupported return type for WebAssembly: {ft.ReturnType}"
+            )
+        resultTypes.append(_ConvertType(ft.ReturnType))
+""")])
+
+@fix('D49', "fix: the wasm backend refuses a function whose body can end without a return value\n\nA function with a return type but no return statement was emitted as a body\nthat falls off its end with an empty stack, which does not type-check against\nthe signature.")
+def d49():
+    patch('nsl/passes/GenerateWasm.py', [(
+"""        for basicBlock in function.BasicBlocks:
+            for instruction in basicBlock.Instructions:
+                self.v_Visit(instruction, ctx)
+
+        ctx.OnLeaveFunction()
+""",
+"""        lastInstruction = None
+        for basicBlock in function.BasicBlocks:
+            for instruction in basicBlock.Instructions:
+                self.v_Visit(instruction, ctx)
+                lastInstruction = instruction
+
+        if functionType.Results and (
+            lastInstruction is None
+            or lastInstruction.OpCode != LinearIR.OpCode.RETURN
+        ):
+            raise RuntimeError(
+                "Unsupported for WebAssembly: function can end without "
+                "returning a value"
+            )
+
+        ctx.OnLeaveFunction()
+"""), ])
+    patch('nsl/WebAssembly.py', [(
+"""    @property
+    def Arguments(self):
+        return self.__argumentTypes
+
+    def WriteTo(self, output: BinaryIO):
+        WriteByte(output, ValueType.function.value)""",
+"""    @property
+    def Arguments(self):
+        return self.__argumentTypes
+
+    @property
+    def Results(self):
+        return self.__returnTypes
+
+    def WriteTo(self, output: BinaryIO):
+        WriteByte(output, ValueType.function.value)""")])
+
+@fix('D50', "fix: i32.const immediates must fit in 32 bits\n\nAn integer literal outside the 32-bit range was written as a longer LEB128\nimmediate, which is malformed; unsigned values above 2^31 - 1 are written as the\nsigned value with the same bits, anything wider is refused.")
+def d50():
+    patch('nsl/passes/GenerateWasm.py', [(
+"""        if isinstance(t, LinearIR.IntegerType):
+            return WebAssembly.Instruction(
+                WebAssembly.opcodes["i32.const"], (cv.Value,)
+            )""",
+"""        if isinstance(t, LinearIR.IntegerType):
+            value = cv.Value
+            if not -(2**31) <= value < 2**32:
+                raise Exception("Unsupported constant: does not fit in 32 bits")
+            if value >= 2**31:
+                # same 32 bits, as the signed immediate i32.const takes
+                value -= 2**32
+            return WebAssembly.Instruction(
+                WebAssembly.opcodes["i32.const"], (value,)
+            )""")])
+
+@fix('D51', "fix: the wasm backend refuses a return value whose type differs from the signature\n\nThe returned value was pushed as it is; when its type differs from the declared\nreturn type (the front end does not check that) the body does not type-check\nagainst its signature.")
+def d51():
+    patch('nsl/passes/GenerateWasm.py', [(
+"""    def v_ReturnInstruction(self, ri: LinearIR.ReturnInstruction, ctx: Context):
+        if ri.Value:
+            self.__PushValueOntoStack(ri.Value, ctx)
+""",
+"""    def v_ReturnInstruction(self, ri: LinearIR.ReturnInstruction, ctx: Context):
+        expected = [_ConvertType(ri.Value.Type)] if ri.Value else []
+        if expected != ctx.ResultTypes:
+            raise RuntimeError(
+                "Unsupported for WebAssembly: returned value does not have "
+                "the function's return type"
+            )
+        if ri.Value:
+            self.__PushValueOntoStack(ri.Value, ctx)
+"""), (
+"""        def OnEnterFunction(self, functionName: str):
+            self.__code = WebAssembly.Code()
+""",
+"""        @property
+        def ResultTypes(self):
+            return self.__resultTypes
+
+        def SetResultTypes(self, resultTypes):
+            self.__resultTypes = resultTypes
+
+        def OnEnterFunction(self, functionName: str):
+            self.__code = WebAssembly.Code()
+"""), (
+"""        ctx.Module.AddFunction(ctx.Module.AddFunctionType(functionType))
+""",
+"""        ctx.Module.AddFunction(ctx.Module.AddFunctionType(functionType))
+        ctx.SetResultTypes(functionType.Results)
+""")])
+
 @fix('D21', "fix: %, && and || on vectors and matrices are lowered and executed component-wise\n\nTyping accepts `a % b`, `a && b`, `a || b` for two vectors or two matrices of the\nsame shape, but FromOperation had no vector opcode for them (VECTOR_MOD was declared\nbut unused), so lowering died with KeyError.")
 def d21():
     patch('nsl/LinearIR.py', [
